@@ -151,7 +151,7 @@ def execute(case):
 
 
 def random_cases(rng, tier):
-    n = 400 if tier == "quick" else 5000
+    n = 400 if tier == "quick" else 2000
     for _ in range(n):
         v = rng.randint(2, 4)
 
